@@ -62,6 +62,9 @@ func genCase(r *vf.Run, t *rapid.T, o sg.Opts) Case {
 	if uniform(t, "long line?", 100) < pctLongLine {
 		c.Long = genLong(t, c.Model)
 	}
+	if uniform(t, "placeholders?", 100) < pctPlaceholders && c.Long == nil {
+		c.Ph = genPlaceholders(t, c.Model)
+	}
 	return c
 }
 
